@@ -210,6 +210,15 @@ QUICK_FIXED = [
     ("A(i,j) = B(i,j,k) * c(k)", {"A": "ds", "B": "dss", "c": "s"}),
     ("A(i,j) = B(i,j,k) * c(k)", {"A": "ss", "B": "sss", "c": "d"}),
     ("a(i) = B(i,j,k)", {"a": "s", "B": "sss"}),
+    ("A(i,j,k) = B(i,j,k)", {"A": "sds", "B": "sss"}),
+    ("A(i,j,k) = B(i,j,k)", {"A": "ssd", "B": "dss"}),
+    # names and operand order must not matter: reversed alphabetical tensor/index names, permuted operands
+    ("z(k) = y(k) * x(k) + w(k)", {"z": "s", "y": "s", "x": "s", "w": "s"}),
+    ("Q(b,a) = P(a,b) + R(b,a)", {"Q": "ds", "P": "d1s0", "R": "ss"}),
+    ("a(i) = d(i) + c(i) * b(i)", {"a": "s", "d": "s", "c": "s", "b": "d"}),
+    ("a(i) = (c(i) + b(i)) + d(i)", {"a": "s", "c": "s", "b": "s", "d": "d"}),
+    ("t9(i1) = t1(i1,i0) * t0(i0)", {"t9": "s", "t1": "ss", "t0": "s"}),
+    ("o() = Z(k) + X() + Y(k)", {"o": "", "Z": "s", "X": "", "Y": "d"}),
 ]
 
 
